@@ -28,6 +28,27 @@ def alias_defs(fn):
     for nd in fn.nodes:
         if is_store(nd):
             stored.add(fn.term(fn.kids(nd["id"])[0]))
+    # a by-value standard container / string that is modified in place (a mutating member is called on it, or its
+    # begin()/end() are handed to a mutating algorithm) does not stand for its initialiser any more
+    MUTATORS = ("push_back", "emplace_back", "append", "erase", "insert", "clear", "resize", "assign", "replace", "pop_back",
+                "operator+=", "swap", "reserve")
+    MUT_ALGOS = ("std::replace", "std::replace_if", "std::transform", "std::fill", "std::remove", "std::remove_if", "std::sort",
+                 "std::reverse", "std::for_each", "std::generate", "std::unique", "std::rotate", "std::copy", "std::swap_ranges")
+    for nd in fn.nodes:
+        if nd["k"] in ("CXXMemberCallExpr", "CXXOperatorCallExpr") and (nd.get("mrec") or "").startswith("std::"):
+            if nd["k"] == "CXXMemberCallExpr" and "obj" in nd and nd.get("fname") in MUTATORS:
+                o = fn.term(nd["obj"])
+                if o[0] == "var":
+                    stored.add(o)
+            if nd["k"] == "CXXOperatorCallExpr" and nd.get("op") in ("+=",) and nd.get("args"):
+                o = fn.term(nd["args"][0])
+                if o[0] == "var":
+                    stored.add(o)
+        if nd["k"] in ("CallExpr",) and (nd.get("fq") or "") in MUT_ALGOS:
+            for a in nd.get("args", []):
+                t = fn.term(a)
+                if t[0] == "call" and t[1].split("::")[-1] in ("begin", "end") and t[2] is not None and t[2][0] == "var":
+                    stored.add(t[2])
     out = {}
     for nd in fn.nodes:
         if nd["k"] == "DeclStmt":
